@@ -165,7 +165,21 @@ fn failing_call(rng: &mut Rng, s: &Schema, chain: &[u64]) -> Option<WOp> {
     let leaves: Vec<&dynspec::Entry> = s.entries.iter().filter(|e| e.ty != TagDataType::Master).collect();
     let masters: Vec<&dynspec::Entry> = s.entries.iter().filter(|e| e.ty == TagDataType::Master).collect();
     let mk = |rng: &mut Rng, e: &dynspec::Entry| -> DynTag { gen::to_tag(&Node::leaf(e.id, gen::rand_val(rng, e.ty, false, false).0)) };
-    match rng.below(8) {
+    match rng.below(10) {
+        8 | 9 => { // Full master, valid children, but their total size is not representable in the requested width
+            let ok: Vec<&&dynspec::Entry> = masters.iter().filter(|e| gen::matches(&e.path, chain)).collect();
+            if ok.is_empty() { return None; }
+            let m = **rng.pick(&ok);
+            let mut ch = chain.to_vec(); ch.push(m.id);
+            let big: Vec<&dynspec::Entry> = gen::allowed_children(s, &ch).into_iter().filter(|e| matches!(e.ty, TagDataType::Binary | TagDataType::Utf8)).collect();
+            if big.is_empty() { return None; }
+            let e = *rng.pick(&big);
+            let idl = gen::id_bytes(e.id).len();
+            // body of exactly 127 bytes (reserved pattern in one byte) or clearly more than 126
+            let payload = if rng.chance(1, 2) && idl + 1 < 127 { 127 - idl - 1 } else { 130 + rng.below(100) };
+            let kid = if e.ty == TagDataType::Binary { DynTag { id: e.id, v: DynVal::B(rng.bytes(payload)) } } else { DynTag { id: e.id, v: DynVal::S("b".repeat(payload)) } };
+            Some(WOp::Tag { tag: DynTag { id: m.id, v: DynVal::M(Master::Full(vec![kid])) }, width: 1, unknown: false })
+        }
         0 => { // tag not allowed here
             let bad: Vec<&&dynspec::Entry> = leaves.iter().filter(|e| !gen::matches(&e.path, chain)).collect();
             if bad.is_empty() { return None; }
